@@ -10,3 +10,6 @@ import ThunderProofs.Properties.C06
 #print axioms TM.Properties.C06.gateway_eq_monolith_raw
 #print axioms TM.Properties.C06.old_first_directive_decides
 #print axioms TM.Properties.C06.old_dedup_loses_subselection
+#print axioms TM.Properties.C06.key_selection_covers
+#print axioms TM.Properties.C06.key_selection_only_keys
+#print axioms TM.Properties.C06.first_target_only_misses_key
